@@ -58,11 +58,11 @@ theorem kidHashes_perm {le : H → H → Bool} {a b : List JT} (h : a.Perm b) : 
 theorem rowsL_perm {le : H → H → Bool} {a b : List JT} (h : a.Perm b) : (rowsL le a).Perm (rowsL le b) := by
   rw [rowsL_eq, rowsL_eq]; exact h.flatMap_right _
 
-theorem callHash_node (le : H → H → Bool) (t : Nat) (a : List HV) (r : HV) (s : Bool) (kids : List JT) :
-    callHash le (.node t a r s kids) = hashCallNode le t a r (kidHashes le kids) := by simp [callHash]
+theorem callHash_node (le : H → H → Bool) (t : Nat) (a ea : List HV) (r : HV) (s : Bool) (kids : List JT) :
+    callHash le (.node t a ea r s kids) = hashCallNode le t a r (kidHashes le kids) := by simp [callHash]
 
-theorem rows_node (le : H → H → Bool) (t : Nat) (a : List HV) (r : HV) (s : Bool) (kids : List JT) :
-    rows le (.node t a r s kids) = ownRows le t a r (kidHashes le kids) ++ rowsL le kids := by simp [rows]
+theorem rows_node (le : H → H → Bool) (t : Nat) (a ea : List HV) (r : HV) (s : Bool) (kids : List JT) :
+    rows le (.node t a ea r s kids) = ownRows le t a ea r (kidHashes le kids) ++ rowsL le kids := by simp [rows]
 
 /-- what two listings of the children of one parent have in common when they differ only by timing: the same
 child call hashes and the same recorded rows, up to order -/
@@ -85,24 +85,24 @@ theorem Same.append {le : H → H → Bool} {a a' b b' : List JT} (h1 : Same le 
   rw [kidHashes_append, kidHashes_append, rowsL_append, rowsL_append]
   exact ⟨h1.1.append h2.1, h1.2.append h2.2⟩
 
-theorem ownRows_perm {le : H → H → Bool} (hle : TotalOrder le) (t : Nat) (a : List HV) (r : HV) {k1 k2 : List H}
-    (h : k1.Perm k2) : (ownRows le t a r k1).Perm (ownRows le t a r k2) := by
+theorem ownRows_perm {le : H → H → Bool} (hle : TotalOrder le) (t : Nat) (a ea : List HV) (r : HV) {k1 k2 : List H}
+    (h : k1.Perm k2) : (ownRows le t a ea r k1).Perm (ownRows le t a ea r k2) := by
   unfold ownRows
   rw [hashCallNode_perm hle h]
   exact .cons _ (.append_left _ (h.map _))
 
 /-- a job whose children were listed in two orders: same call hash, same rows -/
-theorem Same.node {le : H → H → Bool} (hle : TotalOrder le) (t : Nat) (a : List HV) (r : HV) (s : Bool)
+theorem Same.node {le : H → H → Bool} (hle : TotalOrder le) (t : Nat) (a ea : List HV) (r : HV) (s : Bool)
     {kids kids' : List JT} (h : Same le kids kids') :
-    callHash le (.node t a r s kids) = callHash le (.node t a r s kids') ∧
-    (rows le (.node t a r s kids)).Perm (rows le (.node t a r s kids')) := by
+    callHash le (.node t a ea r s kids) = callHash le (.node t a ea r s kids') ∧
+    (rows le (.node t a ea r s kids)).Perm (rows le (.node t a ea r s kids')) := by
   rw [callHash_node, callHash_node, rows_node, rows_node]
-  exact ⟨hashCallNode_perm hle h.1, (ownRows_perm hle t a r h.1).append h.2⟩
+  exact ⟨hashCallNode_perm hle h.1, (ownRows_perm hle t a ea r h.1).append h.2⟩
 
-theorem Same.cons_node {le : H → H → Bool} (hle : TotalOrder le) (t : Nat) (a : List HV) (r : HV) (s : Bool)
+theorem Same.cons_node {le : H → H → Bool} (hle : TotalOrder le) (t : Nat) (a ea : List HV) (r : HV) (s : Bool)
     {kids kids' ks ks' : List JT} (h : Same le kids kids') (h2 : Same le ks ks') :
-    Same le (.node t a r s kids :: ks) (.node t a r s kids' :: ks') := by
-  obtain ⟨e1, e2⟩ := Same.node hle t a r s h
+    Same le (.node t a ea r s kids :: ks) (.node t a ea r s kids' :: ks') := by
+  obtain ⟨e1, e2⟩ := Same.node hle t a ea r s h
   unfold Same
   simp only [kidHashes, rowsL, JT.seen]
   rw [e1]
@@ -131,7 +131,7 @@ theorem ev_det {le : H → H → Bool} (hle : TotalOrder le) {P : Prog} {e : Exp
     | call ha' hb' hp' =>
       obtain ⟨rfl, sa⟩ := iha ha'
       obtain ⟨rfl, sb⟩ := ihb hb'
-      exact ⟨rfl, (Same.of_perm hp).trans ((Same.cons_node hle _ _ _ _ sb sa).trans (Same.of_perm hp').symm)⟩
+      exact ⟨rfl, (Same.of_perm hp).trans ((Same.cons_node hle _ _ _ _ _ sb sa).trans (Same.of_perm hp').symm)⟩
   | condT hc ht ha hp ihc iha =>
     intro v' ks' h'
     cases h' with
@@ -349,14 +349,14 @@ theorem forkArg_inj {h : HV} (hk : h.key = 0) {n m : Nat} (he : forkArg h n = fo
 theorem kidHashes_length_unseen (le : H → H → Bool) (pre post : List JT) (k : JT) :
     (kidHashes le (pre ++ k.setSeen true :: post)).length = (kidHashes le (pre ++ k.setSeen false :: post)).length + 1 := by
   cases k with
-  | node t a r s kids =>
+  | node t a ea r s kids =>
     simp only [kidHashes_append, kidHashes, JT.setSeen, JT.seen, List.length_append]
     simp
     omega
 
-theorem callHash_unseen_ne (le : H → H → Bool) (t : Nat) (a : List HV) (r : HV) (s : Bool) (pre post : List JT) (k : JT) :
-    callHash le (.node t a r s (pre ++ k.setSeen true :: post)) ≠
-    callHash le (.node t a r s (pre ++ k.setSeen false :: post)) := by
+theorem callHash_unseen_ne (le : H → H → Bool) (t : Nat) (a ea : List HV) (r : HV) (s : Bool) (pre post : List JT) (k : JT) :
+    callHash le (.node t a ea r s (pre ++ k.setSeen true :: post)) ≠
+    callHash le (.node t a ea r s (pre ++ k.setSeen false :: post)) := by
   rw [callHash_node, callHash_node]
   intro h
   have hp := (hashCallNode_inj h).2.2.2
